@@ -98,6 +98,12 @@ CLAIMED.update({
    note="std::net::{Ipv4Addr,Ipv6Addr} and a 6-group hex parser are the reference. Forms whose status differs between conventions are not generated.",
    technique="exhaustive enumeration of address renderings against reference parsers"),
 })
+CLAIMED.update({
+ "C19": dict(level="model_checking", design="4.19",
+   text="Per pcap file (every tuple of <= 3 (thorough 4) record sizes around the 8 KiB buffer x both magics x 3 snaplens) an explicit-state breadth-first search over call sequences of pcap_read_next / pcap_read_all(f[, n]) against a Vec<Record> + cursor model (canonical state = cursor, merged states' futures cross-checked, each transition replayed on a freshly opened handle, packets compared field by field); write of all packets with pcap_write and read-back; a three-record file cut at every byte offset and 40 single-field header corruptions: exactly the records before the damage, then null or an error object, never a crash.",
+   note="Byte-swapped files are outside the statement. pcap_read_all on a damaged file may answer with an error object.",
+   technique="explicit-state BFS over read histories with a cursor model + exhaustive truncation/corruption enumeration"),
+})
 NOT_YET = "check not built yet in this round (machinery under construction; see DESIGN.md section 4 for the planned check)"
 
 props = [json.loads(l) for l in open(os.path.join(HERE, "properties.jsonl"))]
